@@ -1,5 +1,7 @@
 import Audit.Tool
 import Adb.Props.C18
 import Adb.Props.C18Assembly
+import Adb.Props.TblResources
 #audit_module Adb.Props.C18
 #audit_module Adb.Props.C18Assembly
+#audit_module Adb.Props.TblResources
